@@ -53,7 +53,12 @@ func (g *Gen) buildDag(depth int) *dag {
 	cborLP := cidlink.LinkPrototype{Prefix: cid.Prefix{Version: 1, Codec: cid.DagCBOR, MhType: 0x12, MhLength: 32}}
 	var level []datamodel.Link
 	for i := 0; i < 2+g.pick(3); i++ {
-		l, err := d.ls.Store(linking.LinkContext{}, rawLP, basicnode.NewBytes(g.bytes(1+g.pick(40))))
+		sz := 1 + g.pick(40)
+		if g.pick(8) == 0 {
+			// leaves whose section length crosses the 2-byte / 3-byte varint boundary and beyond
+			sz = []int{16340 + g.pick(20), 16384, 20000 + g.pick(1000), 33000}[g.pick(4)]
+		}
+		l, err := d.ls.Store(linking.LinkContext{}, rawLP, basicnode.NewBytes(g.bytes(sz)))
 		if err != nil {
 			panic(err)
 		}
